@@ -7,7 +7,7 @@ from harness import common, gen_tree, trees, treeimpl, updimpl
 from harness.common import cps, uncps
 from harness.props import c03
 
-BRIDGE = ('Gemato.Bridge.Tree', 'Gemato.Bridge.FindTop', 'Gemato.Bridge.SrcUpdate', 'Gemato.Bridge.SrcText', 'Gemato.Bridge.SrcLoader', 'Gemato.Bridge.SrcVerify', 'Gemato.Bridge.SrcCodec', 'Gemato.Bridge.SrcProfile')
+BRIDGE = ('Gemato.Bridge.Tree', 'Gemato.Bridge.FindTop', 'Gemato.Bridge.SrcUpdate', 'Gemato.Bridge.SrcText', 'Gemato.Bridge.SrcLoader', 'Gemato.Bridge.SrcVerify', 'Gemato.Bridge.SrcCodec', 'Gemato.Bridge.SrcProfile', 'Gemato.Bridge.SrcCli')
 PROPS = ['Gemato.Props.C12']
 
 
